@@ -863,6 +863,10 @@ def run(ctx, only=None):
         post = rng.choice(['', '.', ' end', ', then more', ')', '" ok', '; z', 's'])
         if rng.random() < 0.5:
             w = ' '.join(rng.choice(EM_INNER) for _ in range(rng.randint(1, 3)))
+            if ' ' in w and rng.random() < 0.3:
+                # the phrase runs over a line ending (a soft line break inside <del>)
+                w = w.replace(' ', '\n', 1)
+                ctx.count('strike_sentences_over_a_line_ending')
             ljobs.append((pre + '~~' + w + '~~' + post + '\n', '<p>' + escq(pre) + '<del>' + escq(w) + '</del>' + escq(post) + '</p>\n'))
             ctx.count('strike_sentences')
         else:
